@@ -33,9 +33,9 @@ func (m *tlaMap) UnmarshalJSON(b []byte) error {
 type c10Event struct {
 	Op string `json:"op"`
 	D  tlaMap `json:"d"`
-	C  int               `json:"c"`
-	K  string            `json:"k"`
-	V  string            `json:"v"`
+	C  int    `json:"c"`
+	K  string `json:"k"`
+	V  string `json:"v"`
 }
 
 type c10Case struct {
